@@ -28,12 +28,14 @@ ASSUMPTIONS = ["the forward model in the normal equations is the reference Born-
                "few-shot tables for qpt use N=1; for qmpt N=1 with the schedules after the fifth fixed to their first outcome",
                "an incomplete tester set counts as rejected when calc_estimate raises any exception"]
 BOUNDS = {"quick": "Q1, Q3 configurations of C08; unit data vectors fed individually when <= 160 rows and always through one "
-                   "calc_estimate_sequence call; few-shot N<=3 (qst, povmt Q1), N<=2 (qst Q3, povmt m=3), N=1 (qpt, qmpt)",
+                   "calc_estimate_sequence call; few-shot N<=3 (qst, povmt Q1), N<=2 (qst Q3, povmt m=3), N=1 (qpt, qmpt); weak_tester: 1-qubit qst, one weak axis "
+                   "eps in {1e-3, 2e-5, 4e-6, 2e-6} x 3 axes x both flags x 10 true states (cond(A) up to 5e5)",
           "thorough": "adds Q2 configurations, individual unit vectors up to 700 rows"}
 EXHAUSTIVE = {"quick": True, "thorough": True}
 CASE_TIMEOUT = 3600
 CHUNK = 1
 TOL_SAME = 1e-12
+WEAK_EPS = (1e-3, 2e-5, 4e-6, 2e-6)      # strength of the weak measurement axis: cond(A) about 1/eps
 
 
 def families(tier, seed):
@@ -46,6 +48,7 @@ def families(tier, seed):
         ("fewshot", fewshot_cases()),
         ("rank_guard", [{"cfg": c} for c in allc]),
         ("estimator_reuse", [{"cfg": c} for c in comp]),
+        ("weak_tester", [{"eps": e, "flag": fl, "axis": ax} for e in WEAK_EPS for fl in (False, True) for ax in (0, 1, 2)]),
     ]
     return fams
 
@@ -73,7 +76,8 @@ def guards(summary):
     need = ["unit_vectors_fed", "zero_vector_fed", "normal_equations_ok", "exact_recovered", "recovered_pure",
             "recovered_boundary", "recovered_interior", "sequence_orders_ok", "counts_variants_ok", "fewshot_tables",
             "fewshot_with_empty_outcome", "reused_same_shape_other_model", "dense_nonnormalised_fed", "guard_raised", "guard_passed", "consistency_check_ok", "overcomplete_configs",
-            "just_complete_configs", "flag_true", "flag_false", "qoperation_checked", "equal_count_configs"]
+            "just_complete_configs", "flag_true", "flag_false", "qoperation_checked", "equal_count_configs",
+            "weak_tester_recovered", "weak_tester_cond_above_1e5"]
     for t in K.TOMOS:
         need.append("tomo_" + t)
     for k in need:
@@ -83,6 +87,8 @@ def guards(summary):
 
 
 def execute(family, params, seed):
+    if family == "weak_tester":
+        return ex_weak(params)
     cx = K.ctx(params["cfg"], seed)
     out = Out()
     seen = {}
@@ -597,3 +603,80 @@ def ex_guard(out, seen, cx, params):
                 out.count("guard_raised")
                 out.count("guard_raised_" + type(r).__name__)
     inner(out, max(0, n_el - 1))
+
+
+# ------------------------------------------------------------------------------------------- weak (barely complete) testers
+
+WEAK_BLOCH = [(0.0, 0.0, 0.0), (0.9, 0.0, 0.0), (0.0, 0.9, 0.0), (0.0, 0.0, -0.9), (0.3, 0.5, 0.4), (-0.5, 0.3, -0.6),
+              (0.0, 1.0, 0.0), (0.6, 0.0, 0.8), (-1.0, 0.0, 0.0), (0.48, -0.64, 0.6)]
+
+
+def ex_weak(params):
+    """1-qubit state tomography whose tester set is informationally complete but measures one Pauli axis only weakly
+    ({(I +- eps sigma)/2}): cond(A) ~ 1/eps, up to 5e5.  The exact Born distributions (computed here from the textbook
+    trace formula) of interior, boundary and pure states must come back within the same rounding allowance as everywhere
+    else (tol_for: 450 eps_machine cond^2) - a complete tester set is a complete tester set, however lopsided."""
+    from quara.objects.composite_system import CompositeSystem
+    from quara.objects.elemental_system import ElementalSystem
+    from quara.objects.matrix_basis import get_normalized_pauli_basis
+    from quara.objects.povm import Povm
+    from quara.protocol.qtomography.standard.standard_qst import StandardQst
+    out = Out()
+    seen = {}
+    eps, flag, axis = params["eps"], params["flag"], params["axis"]
+    out.count("flag_true" if flag else "flag_false")
+    c_sys = CompositeSystem([ElementalSystem(0, get_normalized_pauli_basis())])
+    sig = [np.array([[0, 1], [1, 0]], complex), np.array([[0, -1j], [1j, 0]], complex), np.array([[1, 0], [0, -1]], complex)]
+    I2 = np.eye(2, dtype=complex)
+    elems, povms = [], []
+    for k in range(3):
+        w = eps if k == axis else 1.0
+        ms = [(I2 + w * sig[k]) / 2, (I2 - w * sig[k]) / 2]
+        elems.append(ms)
+        vecs = []
+        for M in ms:
+            a = np.zeros(3)
+            a[k] = w if M is ms[0] else -w
+            vecs.append(np.array([1.0, a[0], a[1], a[2]]) / np.sqrt(2) )
+        povms.append(Povm(c_sys, vecs, is_physicality_required=False))
+    # reference forward model on the library-independent coordinates tr(B_k rho), B = {I, X, Y, Z}/sqrt 2
+    B = [I2 / np.sqrt(2)] + [s_ / np.sqrt(2) for s_ in sig]
+    rows = np.array([[np.trace(M @ Bk).real for Bk in B] for ms in elems for M in ms])
+    Aref = rows[:, 1:] if flag else rows
+    sv = np.linalg.svd(Aref, compute_uv=False)
+    cond = sv[0] / sv[-1]
+    tol = tol_for(cond)
+    if cond > 1e5:
+        out.count("weak_tester_cond_above_1e5")
+    where = "qst Q1 weak axis %s eps=%g flag=%s cond=%.3g" % ("XYZ"[axis], eps, flag, cond)
+    ok, qt = A.call(StandardQst, povms, on_para_eq_constraint=flag, schedules="all")
+    out.ops += 1
+    if not ok:
+        K.fail_once(out, seen, "StandardQst:raises:weak-tester:flag=%s" % flag, "%s: %s" % (where, A.fmt_exc(qt)))
+        qt = None
+    n_el = 0
+    for r in WEAK_BLOCH if qt is not None else []:
+        n_el += 1
+        rho = (I2 + sum(r[k] * sig[k] for k in range(3))) / 2
+        dists = [(1000, np.array([np.trace(M @ rho).real for M in ms], dtype=np.float64)) for ms in elems]
+        ok, res = A.call(estimator().calc_estimate, qt, dists)
+        out.ops += 1
+        out.traces += 1
+        if not ok:
+            K.fail_once(out, seen, "calc_estimate:raises:weak-tester:flag=%s" % flag, "%s true bloch=%r: %s" % (where, r, A.fmt_exc(res)))
+            continue
+        ok, dm = A.call(lambda: res.estimated_qoperation.to_density_matrix())
+        if not ok:
+            K.fail_once(out, seen, "estimated_qoperation:raises:weak-tester:flag=%s" % flag, "%s true bloch=%r: %s" % (where, r, A.fmt_exc(dm)))
+            continue
+        dev = np.abs(np.asarray(dm) - rho).max()
+        if not (dev <= tol):
+            K.fail_once(out, seen, "estimated_var:exact-data-not-recovered:weak-tester:flag=%s:cond%s1e5" % (flag, ">" if cond > 1e5 else "<="),
+                        "%s true bloch=%r: density matrix off by %.3g (allowance %.3g)" % (where, r, dev, tol))
+        else:
+            out.count("weak_tester_recovered")
+            if dev > 0.1 * tol:
+                out.count("weak_tester_dev_above_tenth_of_allowance")
+    inner(out, max(0, n_el - 1))
+    out.outcome = "ok" if not out.fails else "fail:" + ",".join(sorted(seen))[:120]
+    return out
